@@ -42,7 +42,11 @@ func envInt(name string, def int64) int64 {
 // variantsFor lists the build variants a property is checked in.
 func variantsFor(prop, tier string) []string {
 	switch prop {
-	case "C09", "C06", "C11", "C12":
+	case "C09":
+		return []string{"plain", "plain-b16", "plain-b96"}
+	case "C06", "C12":
+		return []string{"plain", "plain-b96"}
+	case "C11":
 		return []string{"plain"}
 	case "C19", "C20":
 		return []string{"plain", "inst-race"}
